@@ -233,8 +233,6 @@ def run(chk, prog):
              'the site is one of the confirmed exceptions below, each of which rests on a condition that is checked '
              'separately.')
     POPPED_EXCEPTIONS = {
-        'NativeFunctionCall::call_binary_list_operation|Rc::downcast':
-            'operands are Values: NativeFunctionCall::call rejects Void before dispatching (rule C04.void-rejected-before-dispatch)',
         'NativeFunctionCall::call_list_increment_operation|Value::get_value':
             'called only from call_binary_list_operation under is_some() tests of exactly these two downcasts '
             '(checked below: single caller, dominated by both tests)',
@@ -285,6 +283,13 @@ def run(chk, prog):
                          'that leaves a value of another kind there (Void from a function without return, ...) aborts the '
                          'process instead of reporting a story error' % (root.short, down[0]), fn.loc(s_['bb']))
     chk.floor(RE, 'unwraps of downcast evaluation-stack values examined', n_tainted, 10)
+    for ek in POPPED_EXCEPTIONS:
+        if ek not in used_exc:
+            chk.note('C04 popped-values exception matches no site (stale): ' + ek)
+
+    from rules.docopt import check_document_decided_options
+    check_document_decided_options(chk, prog, 'C04.story-decided-options-not-unwrapped',
+                                   ' (Shared with C15: what a compiled story can say, a document can say.)')
 
     # backing conditions of the exceptions
     RF = 'C04.void-rejected-before-dispatch'
